@@ -128,32 +128,8 @@ def enc_op(o):
     return "get@" + enc_gkey(o["k"])
 
 
-_VARIANT = None
-
-
-def code_variant():
-    """which of the anticipated repairs the code under test contains (probed once per run on orix itself with the
-    witnesses of the two findings): 'v<a><b>', a = constructor drops the caller's not_indexed entry,
-    b = phases_in_data keeps the id of a single phase.  The model variant compared against is chosen accordingly,
-    so a `fix:` commit of either finding keeps the correspondence green."""
-    global _VARIANT
-    if _VARIANT is None:
-        from orix.crystal_map import CrystalMap, PhaseList
-        from orix.quaternion import Rotation
-        with warnings.catch_warnings():
-            warnings.simplefilter("ignore")
-            pl = PhaseList(names=["a", "b"])
-            pl.add_not_indexed()
-            xm = CrystalMap(Rotation.identity((3,)), phase_id=np.array([0, 1, 2]), x=np.arange(3), phase_list=pl)
-            a = "0" if "not_indexed" in [p.name for i, p in xm.phases if int(i) != -1] else "1"
-            xm = CrystalMap(Rotation.identity((3,)), phase_id=np.array([0, 1, 1]), x=np.arange(3))
-            b = "1" if [int(i) for i in xm[xm.phase_id == 1].phases_in_data.ids] == [1] else "0"
-        _VARIANT = "v" + a + b
-    return _VARIANT
-
-
 def case_line(c):
-    return " ".join(["xmap", "c12", code_variant(), str(c["ny"]), str(c["nx"]), G.ints(c["pid"]), G.bits(c["mask"]),
+    return " ".join(["xmap", "c12", str(c["ny"]), str(c["nx"]), G.ints(c["pid"]), G.bits(c["mask"]),
                      G.enc_props(c["props"]), enc_plform(c["pl"])] + [enc_op(o) for o in c["ops"]])
 
 
@@ -573,70 +549,9 @@ SITES = {
 }
 
 
-# ---------------------------------------------------------------------------------------------------
-# classifiers for known_findings.json
-# ---------------------------------------------------------------------------------------------------
-def _caller_entries(c):
-    with warnings.catch_warnings():
-        warnings.simplefilter("ignore")
-        pl = mk_phase_list(c["pl"])
-    return [] if pl is None else entries_of(pl)
-
-
-def pred_caller_has_not_indexed(case):
-    """the caller's phase list contains id -1 / a phase named not_indexed, and what fails is the
-    '-1 <-> not_indexed' clause right after construction"""
-    if "pl" not in case:
-        return False
-    es = _caller_entries(case)
-    if not any(e[0] == -1 or e[1] == "not_indexed" for e in es):
-        return False
-    c0 = dict(case)
-    c0["ops"] = []
-    msg = inv_run(c0) or ""
-    return msg.startswith("after construction") and "must be 'not_indexed'" in msg
-
-
-def pred_single_phase_duplicate_name(case):
-    """what fails is phases_in_data of a single-phase selection, and that phase's name also belongs to an
-    earlier entry of the phase list (the reported id is that earlier entry's)"""
-    if "pl" not in case:
-        return False
-    msg = inv_run(case) or ""
-    if "but phases_in_data lists [" not in msg:
-        return False
-    import re
-    m = re.search(r"holds phase ids \[(-?\d+)\] but phases_in_data lists \[(-?\d+)\]", msg)
-    if not m:
-        return False
-    held, listed = int(m.group(1)), int(m.group(2))
-    # replay on orix up to the failing step and look at the names
-    with warnings.catch_warnings():
-        warnings.simplefilter("ignore")
-        r, e = try_(lambda: build(case))
-        if e is not None:
-            return False
-        xm, _, _ = r
-        views = [xm]
-
-        def dup():
-            nm = {int(i): p.name for i, p in xm.phases}
-            return held in nm and listed in nm and nm[held] == nm[listed] and listed < held
-        if msg.startswith("after construction"):
-            return dup()
-        t = int(re.match(r"step (\d+)", msg).group(1))
-        for o in case["ops"][:t + 1]:
-            apply_op(xm, views, o)
-        return dup()
-
-
-def pred_dtype_differs(case):
-    return case.get("old_dtype") is not None and case.get("old_dtype") != case.get("val_dtype")
-
-
-PREDICATES = {"caller_has_not_indexed": pred_caller_has_not_indexed,
-              "single_phase_duplicate_name": pred_single_phase_duplicate_name,
-              "dtype_differs": pred_dtype_differs}
+# no open finding for C12: the three defects found by this check were repaired by `fix:` commits 1077dd8,
+# bb01d48 and fe80c2f; the model follows the repaired code, so a reverted fix is a VIOLATION
+PREDICATES = {}
 
 
 # ---------------------------------------------------------------------------------------------------
@@ -927,11 +842,6 @@ def generate(ctx):
 
 def run(ctx, status):
     driver_ok = lean_phase(ctx, status, ["OrixProofs.Properties.C12"])
-    v = code_variant()
-    ctx.extra["model_variant"] = v
-    if v != "v00":
-        ctx.note(f"the code under test contains repair(s) {v} (constructor drops caller's not_indexed / "
-                 f"phases_in_data keeps the single phase's id): compared against the repaired model variant")
     if ctx.replay:
         site, case, body = sites.load_replay(ctx.replay)
         if site in SITES:
